@@ -255,7 +255,8 @@ def generate(seed, tier):
             ops.append(["hash", n, r.choice(have[n])])
         elif x < 0.45 and have[n]:
             m = f"m{len(msgs)}"
-            ops.append(["dumps", n, r.choice(have[n]), r.randint(0, 5), m])
+            ops.append(["dumps", n, r.choice(have[n]), r.randint(0, 5), m]
+                       + ([r.choice(["dict", "set", "tuple", "list"])] if r.random() < 0.2 else []))
             msgs.append(m)
             # bias: deliver soon, elsewhere
             if r.random() < 0.7:
@@ -463,11 +464,16 @@ def execute(scenario, open_sigs):
                 if (n, op[2]) in handle_term and rq(n, {"op": "hash", "h": op[2]}) is not None:
                     hashed.add((n, op[2]))
             elif k == "dumps":
-                _, _, h, proto, m = op
+                _, _, h, proto, m = op[:5]
+                ck = op[5] if len(op) > 5 else None
                 if (n, h) in handle_term:
-                    r = rq(n, {"op": "dumps", "h": h, "proto": proto})
+                    r = rq(n, dict({"op": "dumps", "h": h, "proto": proto},
+                                   **({"container": ck} if ck else {})))
                     if r is not None:
+                        if ck:
+                            probe("container_messages")
                         store[m] = {"bytes": r["bytes"], "term": handle_term[(n, h)],
+                                    "container": ck,
                                     "seed": node(n).hash_seed, "opt": node(n).optimize,
                                     "hashed_before": (n, h) in hashed, "nloads": 0,
                                     "producer": n, "proto": proto}
@@ -476,7 +482,8 @@ def execute(scenario, open_sigs):
                 _, _, m, h = op
                 if m in store:
                     s = store[m]
-                    r = rq(n, {"op": "loads", "h": h, "bytes": s["bytes"], "term": s["term"]})
+                    r = rq(n, dict({"op": "loads", "h": h, "bytes": s["bytes"], "term": s["term"]},
+                                   **({"container": s["container"]} if s.get("container") else {})))
                     if r is None:
                         events.append(ev)
                         continue
@@ -505,7 +512,10 @@ def execute(scenario, open_sigs):
                            "consumer_O": node(n).optimize, "producer_O": s["opt"],
                            "hashed_before_dumps": s["hashed_before"], "protocol": s["proto"],
                            "term": s["term"], "flags": {kk: r[kk] for kk in r if kk != "ok"}}
-                    if not (r["eq"] and r["eq_rev"] and not r["ne"]):
+                    if s.get("container") and not r.get("container_ok", True):
+                        det["container"] = s["container"]
+                        viol("C17/loaded-not-found", det)
+                    elif not (r["eq"] and r["eq_rev"] and not r["ne"]):
                         viol("C17/loaded-not-equal", det)
                     elif not r["hash_equal"]:
                         viol("C17/loaded-hash-differs", det)
